@@ -14,7 +14,11 @@
 EXTENDS Counting, Json, TLC, FiniteSets, Sequences
 CONSTANTS Sample, Seed, K
 VARIABLE f
-Tag(g) == LET s == IF g = {} THEN 0 ELSE CHOOSE m \in g : \A x \in g : x <= m IN (Cardinality(g) * 7 + s * 13 + Seed) % Sample
+(* sampling by the rank of the function among all functions (its truth table read as a binary number): every residue class *)
+(* modulo Sample is inhabited, whatever the seed                                                                         *)
+Tag(g) == LET RECURSIVE Rank(_)
+              Rank(h) == IF h = {} THEN 0 ELSE LET a == CHOOSE x \in h : TRUE IN 2 ^ a + Rank(h \ {a})
+          IN ((Rank(g) % 251) * 13 + (Rank(g) \div 251) + Seed) % Sample
 QLists == UNION {{s \in [1 .. n -> Vars] : \A i, j \in 1 .. n : i # j => s[i] # s[j]} : n \in {NV - 1, NV}}
 Grid == <<1, 3, 6, 8, 2, 5, 7, 4>>
 Rnd(a, b, c, d) == (a * 31 + b * 17 + c * 7 + d * 3 + Seed * 11 + (a * b + c) * 5) % 8
